@@ -138,6 +138,9 @@ type Scenario interface {
 	Check(c *Ctx, res *simrt.Result)
 }
 
+// ExtraDump adds world state to the goroutine dump of unfinished runs.
+var ExtraDump func() []string
+
 var registry = map[string]func() Scenario{}
 
 func Register(name string, f func() Scenario) { registry[name] = f }
@@ -224,6 +227,9 @@ func BuildOut(c *Ctx, res *simrt.Result, tp *tape.Tape) *Out {
 	}
 	if len(c.viol) > 0 || res.Status != "ok" || c.Job.Trace > 0 {
 		o.Dump = res.Dump
+		if res.Status != "ok" && ExtraDump != nil {
+			o.Dump = append(o.Dump, ExtraDump()...)
+		}
 		o.Trace = res.Trace
 		o.Events = res.Events
 	}
